@@ -49,3 +49,43 @@ theorem world_config_sets_identity (H : HashFn) (w : W.World) (value : Bytes) (o
   rw [this]
 
 end C20
+
+namespace C20
+
+open Config Cmds
+
+/-- the `--global` form: the setting is what every later invocation loads from the global file, every other key of it as before -/
+theorem world_config_global_readback (H : HashFn) (w : W.World) (key value sec k : Bytes) (o : Option Bytes) (c : Sections)
+    (h : (W.configCmd w true [key, value]).2 = .ok o)
+    (hc : cfgOf w.cfgGlobal = some c) (hok : CfgOK c) (hsp : Bytes.split1 46 key = [sec, k]) (hk : KeyOK k) (hv : ValOK value)
+    (hl1 : (headLine sec).length < Bytes.maxToken) (hl2 : (keyLine (k, value)).length < Bytes.maxToken)
+    (l' : W.Loaded) (hl : W.load H (W.configCmd w true [key, value]).1 = some l') :
+    get l'.glob sec k = some value ∧ ∀ s' k', ¬ (s' = sec ∧ k' = k) → get l'.glob s' k' = get c s' k' := by
+  obtain ⟨c', hcmd, hfile, _, _⟩ := world_config_is_cmd w true key value o h
+  simp only [if_true] at hcmd hfile
+  obtain ⟨hpr, hget, hothers⟩ := configCmd_roundtrip w.cfgGlobal key value c' hcmd c hc hok sec k hsp hk hv hl1 hl2
+  have hglob : l'.glob = c' := by
+    unfold W.load at hl
+    rw [hfile] at hl
+    have : cfgOf (some (render c')) = some c' := hpr
+    rw [this] at hl
+    split at hl
+    · rename_i loc glob b hcm refs _ h2 _ _
+      injection hl with hl
+      rw [← hl]
+      injection h2 with h2
+      exact h2.symm
+    · cases hl
+  rw [hglob]
+  exact ⟨hget, hothers⟩
+
+/-- **precedence**: a key set only globally is the one the loaded identity uses; a local value for it overrides -/
+theorem userField_precedence (loc glob : Sections) (k : Bytes) :
+    (∀ v, get loc (asc "user") k = some v → userField loc glob k = v) ∧
+    (get loc (asc "user") k = none → ∀ v, get glob (asc "user") k = some v → userField loc glob k = v) := by
+  unfold userField
+  constructor
+  · intro v hv; rw [hv]
+  · intro hn v hv; rw [hn, hv]; rfl
+
+end C20
